@@ -78,6 +78,8 @@ def _one(case, vecu):
                     break
                 # every sendKey request carries bytes derived from a fresh seed (also when an earlier one is repeated)
                 sendkey = b[0] == 0x27 and len(b) >= 2 and (b[1] & 0x7F) % 2 == 0
+                # a sendKey without key bytes comes from a fresh seed of length 0 (directly or through a repeat of that request)
+                empty_seed = empty_seed or (sendkey and len(b) == 2)
                 req_s = (b[:2].hex() + "<key>") if (is_key or sendkey) else b.hex()
                 if reply is not None and len(reply) >= 2 and reply[0] == 0x67 and reply[1] % 2 == 1:
                     rep_s = reply[:2].hex() + "<seed>"
